@@ -1,5 +1,6 @@
 /* C04 harness: the REAL compressor / transformer / decompressor of the working tree.
  *   dec <hex>        decode a stream with jpeg_read_coefficients (lossless: full decode)
+ *   decs <n> <hex>   the same through a suspending data source that reveals n bytes at a time
  *   enc <params>     compress a synthetic image with the libjpeg API, print "<hex>\t<dec line>"
  *   xform <params>   tj3Compress8 + tj3Transform, print "<hex>\t<dec line>"
  * dec line:  ok nc=<k> warn=<n> | w h c c c ... | w h ...     (natural order, real blocks only)
@@ -19,7 +20,10 @@
 static jmp_buf jb;
 static int last_err;
 static void my_exit(j_common_ptr c) { last_err = c->err->msg_code; longjmp(jb, 1); }
-static void my_emit(j_common_ptr c, int lvl) { if (lvl < 0) c->err->num_warnings++; }
+static void my_emit(j_common_ptr c, int lvl)
+{
+  if (lvl < 0) { c->err->num_warnings++; if (getenv("C04_WARN")) { char b[JMSG_LENGTH_MAX]; (*c->err->format_message) (c, b); fprintf(stderr, "warning: %s\n", b); } }
+}
 
 static unsigned long long rs;
 static unsigned rnd(void) { rs = rs * 6364136223846793005ULL + 1442695040888963407ULL; return (unsigned)(rs >> 33); }
@@ -31,22 +35,56 @@ static void put_hex(const unsigned char *b, size_t n)
   for (i = 0; i < n; i++) { putchar(hx[b[i] >> 4]); putchar(hx[b[i] & 15]); }
 }
 
-/* decode with the real library and print the canonical line */
-static void dec_stream(unsigned char *buf, size_t len)
+/* A suspending data source: only `avail` bytes of the stream are visible; fill_input_buffer
+ * returns FALSE, the caller then makes `chunk` more bytes visible and calls the library again. */
+typedef struct { struct jpeg_source_mgr pub; const unsigned char *data; size_t len, avail, skip_left; } susp_src;
+static void ss_init(j_decompress_ptr d) { }
+static boolean ss_fill(j_decompress_ptr d) { return FALSE; }
+static void ss_skip(j_decompress_ptr d, long n)
 {
+  susp_src *s = (susp_src *)d->src;
+  if (n <= 0) return;
+  if ((size_t)n <= s->pub.bytes_in_buffer) { s->pub.next_input_byte += n; s->pub.bytes_in_buffer -= n; }
+  else { s->skip_left += (size_t)n - s->pub.bytes_in_buffer; s->pub.next_input_byte += s->pub.bytes_in_buffer; s->pub.bytes_in_buffer = 0; }
+}
+static void ss_term(j_decompress_ptr d) { }
+static size_t ss_chunk;
+static int ss_feed(j_decompress_ptr d)       /* returns 0 when the whole stream is already visible */
+{
+  susp_src *s = (susp_src *)d->src; size_t add;
+  if (s->avail >= s->len) return 0;
+  add = ss_chunk; if (add > s->len - s->avail) add = s->len - s->avail;
+  s->avail += add;
+  if (s->skip_left) { size_t k = s->skip_left < add ? s->skip_left : add; s->skip_left -= k; s->pub.next_input_byte += k; add -= k; }
+  s->pub.bytes_in_buffer += add;
+  return 1;
+}
+#define SUSP_LOOP(call, suspended) \
+  for (;;) { if (!(suspended)) break; if (!chunk || !ss_feed(&d)) { printf("err suspended-at-end\n"); jpeg_destroy_decompress(&d); return; } }
+
+/* decode with the real library and print the canonical line; chunk > 0: suspending source */
+static void dec_stream_c(unsigned char *buf, size_t len, size_t chunk);
+static void dec_stream(unsigned char *buf, size_t len) { dec_stream_c(buf, len, 0); }
+static void dec_stream_c(unsigned char *buf, size_t len, size_t chunk)
+{
+  susp_src ss; int hr;
   struct jpeg_decompress_struct d; struct jpeg_error_mgr e; int ci;
   jvirt_barray_ptr *coefs;
   d.err = jpeg_std_error(&e); e.error_exit = my_exit; e.emit_message = my_emit;
   jpeg_create_decompress(&d);
   if (setjmp(jb)) { printf("err %d\n", last_err); jpeg_destroy_decompress(&d); return; }
-  jpeg_mem_src(&d, buf, (unsigned long)len);
-  jpeg_read_header(&d, TRUE);
+  if (chunk) {
+    memset(&ss, 0, sizeof(ss)); ss.pub.init_source = ss_init; ss.pub.fill_input_buffer = ss_fill; ss.pub.skip_input_data = ss_skip;
+    ss.pub.resync_to_restart = jpeg_resync_to_restart; ss.pub.term_source = ss_term; ss.data = buf; ss.len = len;
+    ss.pub.next_input_byte = buf; ss.pub.bytes_in_buffer = 0; ss_chunk = chunk; d.src = &ss.pub;
+  } else jpeg_mem_src(&d, buf, (unsigned long)len);
+  SUSP_LOOP(hr, (hr = jpeg_read_header(&d, TRUE)) == JPEG_SUSPENDED)
   if (d.master->lossless) {
     unsigned long crc = 0; size_t rowsz; void *row; JDIMENSION y; int same = 1, nc; long *all = NULL; size_t npix;
     d.out_color_space = d.jpeg_color_space;
     for (ci = 0; ci < d.num_components; ci++)
       if (d.comp_info[ci].h_samp_factor != d.max_h_samp_factor || d.comp_info[ci].v_samp_factor != d.max_v_samp_factor) same = 0;
-    jpeg_start_decompress(&d);
+    SUSP_LOOP(hr, !jpeg_start_decompress(&d))
     nc = d.output_components; npix = (size_t)d.output_width * d.output_height;
     if (nc != d.num_components) same = 0;
     rowsz = (size_t)d.output_width * nc * 2;
@@ -54,9 +92,9 @@ static void dec_stream(unsigned char *buf, size_t len)
     if (same) all = malloc(npix * nc * sizeof(long) + 8);
     for (y = 0; y < d.output_height; y++) {
       size_t i, n = (size_t)d.output_width * nc; long v;
-      if (d.data_precision <= 8) { JSAMPROW r = (JSAMPROW)row; jpeg_read_scanlines(&d, &r, 1); }
-      else if (d.data_precision <= 12) { J12SAMPROW r = (J12SAMPROW)row; jpeg12_read_scanlines(&d, &r, 1); }
-      else { J16SAMPROW r = (J16SAMPROW)row; jpeg16_read_scanlines(&d, &r, 1); }
+      if (d.data_precision <= 8) { JSAMPROW r = (JSAMPROW)row; SUSP_LOOP(hr, jpeg_read_scanlines(&d, &r, 1) == 0) }
+      else if (d.data_precision <= 12) { J12SAMPROW r = (J12SAMPROW)row; SUSP_LOOP(hr, jpeg12_read_scanlines(&d, &r, 1) == 0) }
+      else { J16SAMPROW r = (J16SAMPROW)row; SUSP_LOOP(hr, jpeg16_read_scanlines(&d, &r, 1) == 0) }
       for (i = 0; i < n; i++) {
         v = d.data_precision <= 8 ? ((JSAMPROW)row)[i] : d.data_precision <= 12 ? ((J12SAMPROW)row)[i] : ((J16SAMPROW)row)[i];
         crc = crc * 31 + v;
@@ -64,7 +102,7 @@ static void dec_stream(unsigned char *buf, size_t len)
       }
     }
     free(row);
-    jpeg_finish_decompress(&d);
+    SUSP_LOOP(hr, !jpeg_finish_decompress(&d))
     if (same) {
       size_t i;
       printf("lossless nc=%d warn=%ld", nc, e.num_warnings);
@@ -79,7 +117,7 @@ static void dec_stream(unsigned char *buf, size_t len)
     jpeg_destroy_decompress(&d);
     return;
   }
-  coefs = jpeg_read_coefficients(&d);
+  SUSP_LOOP(hr, (coefs = jpeg_read_coefficients(&d)) == NULL)
   printf("ok nc=%d warn=", d.num_components);
   {
     /* all rows must be fetched before finish; print after collecting the warning count */
@@ -107,7 +145,7 @@ static void dec_stream(unsigned char *buf, size_t len)
         for (k = 0; k < 64; k++) pos += sprintf(out + pos, " %u", q->quantval[k]);
       }
     }
-    jpeg_finish_decompress(&d);
+    SUSP_LOOP(hr, !jpeg_finish_decompress(&d))
     printf("%ld", e.num_warnings);
     fwrite(out, 1, pos, stdout);
     putchar('\n');
@@ -295,6 +333,15 @@ int main(void)
       buf = malloc(len / 2 + 1);
       for (i = 0; i + 1 < len; i += 2) buf[i / 2] = (unsigned char)(hexv(p[i]) * 16 + hexv(p[i + 1]));
       dec_stream(buf, len / 2);
+      free(buf);
+    } else if (!strncmp(line, "decs ", 5)) {
+      /* decs <chunk> <hex> : decode through the suspending source, <chunk> bytes at a time */
+      char *p = line + 5; size_t chunk = strtoul(p, &p, 10), len = 0, i; unsigned char *buf;
+      while (*p == ' ') p++;
+      while (p[len] && p[len] != '\n' && p[len] != ' ') len++;
+      buf = malloc(len / 2 + 1);
+      for (i = 0; i + 1 < len; i += 2) buf[i / 2] = (unsigned char)(hexv(p[i]) * 16 + hexv(p[i + 1]));
+      dec_stream_c(buf, len / 2, chunk ? chunk : 1);
       free(buf);
     } else if (!strncmp(line, "enc ", 4)) do_enc(line + 4);
     else if (!strncmp(line, "xform ", 6)) do_xform(line + 6);
